@@ -30,13 +30,15 @@ def gen(rng, n_cases):
         if mix == 5:
             V = V + rng.standard_normal((n, d)) * w * 10
         via = ["function", "registry"][rng.randint(2)]
-        yield {"kind": kind, "via": via, "xl": xl, "xu": xu, "Xb": Xb, "V": V,
+        # memory layout of the mutant matrix handed over (the functions work in place on what they are given)
+        layout = ["C", "C", "F", "strided", "colslice", "T"][rng.randint(6)]
+        yield {"kind": kind, "via": via, "layout": layout, "xl": xl, "xu": xu, "Xb": Xb, "V": V,
                "seed": int(rng.randint(2**31 - 1))}
 
 
 def run(case, replay=None):
     from pymoode.operators import dem
-    rec = Record(NAME, {"kind": case["kind"], "via": case["via"], "seed": case["seed"]},
+    rec = Record(NAME, {"kind": case["kind"], "via": case["via"], "layout": case.get("layout", "C"), "seed": case["seed"]},
                  {"xl": case["xl"], "xu": case["xu"], "Xb": case["Xb"], "V": case["V"]})
     fn = {"bounce-back": "bounce_back", "midway": "midway", "rand-init": "rand_init", "to-bounds": "to_bounds"}
     try:
@@ -45,6 +47,20 @@ def run(case, replay=None):
         rec.err = "lookup: %r" % (e,)
         return rec
     X = np.array(case["V"], dtype=float, copy=True)
+    lay = case.get("layout", "C")
+    if lay == "F":
+        X = np.asfortranarray(X)
+    elif lay == "strided":
+        big = np.full((2 * X.shape[0], X.shape[1]), np.nan)
+        big[::2] = X
+        X = big[::2]
+    elif lay == "colslice":
+        big = np.full((X.shape[0], X.shape[1] + 2), np.nan)
+        big[:, 1:-1] = X
+        X = big[:, 1:-1]
+    elif lay == "T":
+        X = np.ascontiguousarray(X.T).T
+    rec.tags.add("layout:" + lay)
     Xb = np.array(case["Xb"], dtype=float, copy=True)
     xl = np.array(case["xl"], dtype=float, copy=True)
     xu = np.array(case["xu"], dtype=float, copy=True)
